@@ -15,35 +15,43 @@ variable {σ π : Type} [PsInv σ]
 def QRange (Good : Board → Prop) (TTok : σ → Prop) (μ : Board → Nat)
     (child : Score → Score → Int → St σ → Score × St σ) : Prop :=
   ∀ a b p s, Good s.board → 0 ≤ p → p + (μ s.board : Int) ≤ 111 → WinOK a b → TTok s.ps →
-    TTok (child a b p s).2.ps ∧ ((child a b p s).2.aborted = false → InR (child a b p s).1)
+    TTok (child a b p s).2.ps ∧ ((child a b p s).2.aborted = false → RelP p (child a b p s).1)
 
 /-- the running values of the quiescence loop stay workable. -/
-def QInv (l : QLoop) : Prop := -32767 ≤ l.alpha ∧ l.alpha ≤ 10000 ∧ InR l.maxim
+def QInv (ply : Int) (l : QLoop) : Prop := -32767 ≤ l.alpha ∧ l.alpha ≤ 10000 ∧ RelP ply l.maxim
 
 theorem qAfter_range (c : Comp σ π) (L : Limits) {Good : Board → Prop} {TTok : σ → Prop} {μ : Board → Nat}
-    (sl : ScoreLaws c Good TTok μ) (beta : Score) (ply : Int) (m : Move) (r : Board.Reverse)
-    (l : QLoop) (v : Score) (s : St σ) (htt : TTok s.ps) (hv : s.aborted = false → InR v) (hl : QInv l) :
+    (hlw : Laws c Good) (sl : ScoreLaws c Good TTok μ) (beta : Score) (ply : Int) (m : Move) (r : Board.Reverse)
+    (l : QLoop) (v : Score) (s : St σ) (hp0 : 0 ≤ ply) (hp1 : ply ≤ 126) (htt : TTok s.ps)
+    (hgb : Good (s.board.undoMove m r)) (hmb : m ∈ MoveGen.gen (s.board.undoMove m r))
+    (hv : s.aborted = false → RelP (ply + 1) v) (hl : QInv ply l) :
     let o := qAfter c L beta ply m r l v s
-    TTok o.2.ps ∧ (∀ x, o.1 = .ret x → o.2.aborted = false → InR x) ∧ (∀ l', o.1 = .cont l' → QInv l') := by
+    TTok o.2.ps ∧ (∀ x, o.1 = .ret x → o.2.aborted = false → RelP ply x) ∧ (∀ l', o.1 = .cont l' → QInv ply l') := by
   simp only [qAfter]
   have hps := abort_ps L (s.setBoard (s.board.undoMove m r))
   have hfa := @abort_false σ _ L (s.setBoard (s.board.undoMove m r))
   have hat := abort_true_iff L (s.setBoard (s.board.undoMove m r))
-  generalize abort L (s.setBoard (s.board.undoMove m r)) = as at hps hfa hat ⊢
+  have hbd : (abort L (s.setBoard (s.board.undoMove m r))).2.board = s.board.undoMove m r :=
+    (abort_frame L (s.setBoard (s.board.undoMove m r))).board
+  generalize abort L (s.setBoard (s.board.undoMove m r)) = as at hps hfa hat hbd ⊢
   split
   · next hab =>
     refine ⟨by rw [hps]; exact htt, fun x _ hna => ?_, (fun l' h => by cases h)⟩
     rw [← hat, hab] at hna; cases hna
   · next hab =>
     have hab' : as.1 = false := by simpa using hab
-    have hvr : InR (neg v) := neg_inR (hv (by simpa using (hfa hab').2))
+    have hvp : RelP ply (neg v) := neg_relP hp0 (hv (by simpa using (hfa hab').2))
+    have hvr : InR (neg v) := hvp.inR hp0
     split
-    · refine ⟨sl.tt_store _ _ _ _ _ _ _ (by rw [hps]; exact htt) hvr, fun x hx _ => ?_, (fun l' h => by cases h)⟩
-      cases hx; exact hvr
+    · have htt' : TTok as.2.ps := by rw [hps]; exact htt
+      refine ⟨sl.tt_store _ _ _ _ _ _ _ htt' hp0 (by omega) hvp
+        (hlw.ok_store _ _ _ _ _ _ _ (sl.tt_ok _ htt') (by rw [hbd]; exact hgb) (Or.inr (by rw [hbd]; exact hmb))),
+        fun x hx _ => ?_, (fun l' h => by cases h)⟩
+      cases hx; exact hvp
     · refine ⟨by rw [hps]; exact htt, (fun x h => by cases h), fun l' h => ?_⟩
       cases h
       obtain ⟨h1, h2, h3⟩ := hl
-      exact ⟨le_max_of h1, max_le_of h2 hvr.2, le_max_of h3.1, max_le_of h3.2 hvr.2⟩
+      exact ⟨le_max_of h1, max_le_of h2 hvr.2, relP_max h3 hvp⟩
 
 theorem qLoop_range (c : Comp σ π) (L : Limits) {Good : Board → Prop} {TTok : σ → Prop} {μ : Board → Nat}
     (hl : Laws c Good) (sl : ScoreLaws c Good TTok μ)
@@ -51,9 +59,9 @@ theorem qLoop_range (c : Comp σ π) (L : Limits) {Good : Board → Prop} {TTok 
     (beta sp : Score) (hb1 : -10000 ≤ beta) (hb2 : beta ≤ 32767) (ply : Int) (hp0 : 0 ≤ ply) :
     ∀ (moves : List (Move × Score)) (l : QLoop) (s : St σ), Good s.board → s.board.fifty < 100 →
       (∀ mw ∈ moves, mw.1 ∈ MoveGen.gen s.board ∧ μ (s.board.makeMove c.keys mw.1).1 < μ s.board) →
-      ply + (μ s.board : Int) ≤ 111 → TTok s.ps → QInv l →
+      ply + (μ s.board : Int) ≤ 111 → TTok s.ps → QInv ply l →
       let o := qLoop c L child beta sp ply moves l s
-      TTok o.2.ps ∧ (∀ x, o.1 = .ret x → o.2.aborted = false → InR x) ∧ (∀ l', o.1 = .done l' → QInv l') := by
+      TTok o.2.ps ∧ (∀ x, o.1 = .ret x → o.2.aborted = false → RelP ply x) ∧ (∀ l', o.1 = .done l' → QInv ply l') := by
   intro moves
   induction moves with
   | nil => intro l s _ _ _ _ htt hq; exact ⟨htt, (fun x h => by cases h), fun l' h => by cases h; exact hq⟩
@@ -85,7 +93,9 @@ theorem qLoop_range (c : Comp σ π) (L : Limits) {Good : Board → Prop} {TTok 
             rw [hcs.1.board]; simpa using hu
           have ha := qAfter_spec c L hl beta ply m (s.board.makeMove c.keys m).2 l r.1 r.2
             (by rw [hub]; exact hg) (by rw [hub]; exact hmem)
-          have har := qAfter_range c L sl beta ply m (s.board.makeMove c.keys m).2 l r.1 r.2 hrs.1 hrs.2 hq
+          have har := qAfter_range c L hl sl beta ply m (s.board.makeMove c.keys m).2 l r.1 r.2 hp0 (by omega) hrs.1
+            (by rw [hub]; exact hg) (by rw [hub]; exact hmem)
+            (by rw [← hw]; exact hrs.2) hq
           simp only at ha har
           generalize qAfter c L beta ply m (s.board.makeMove c.keys m).2 l r.1 r.2 = o at ha har ⊢
           obtain ⟨_, hb1', _, _, _, hnb⟩ := ha
@@ -105,7 +115,8 @@ theorem qLoop_range (c : Comp σ π) (L : Limits) {Good : Board → Prop} {TTok 
               (by rw [hboard]; exact hpl) htt'
               (hcont l' rfl)
 
-theorem ttCut_inR {e : TTHit} {a b v : Score} (he : InR e.value) (h : ttCut e a b = some v) : InR v := by
+theorem ttCut_relP {ply : Int} {e : TTHit} {a b v : Score} (he : RelP ply e.value) (h : ttCut e a b = some v) :
+    RelP ply v := by
   unfold ttCut at h
   split at h
   · cases h; exact he
@@ -122,39 +133,48 @@ theorem qBody_range (c : Comp σ π) (L : Limits) {Good : Board → Prop} {TTok 
     (alpha beta : Score) (hw : WinOK alpha beta) (ply : Int) (hp0 : 0 ≤ ply) (s : St σ) (hg : Good s.board)
     (hfl : s.board.fifty < 100) (hpl : ply + (μ s.board : Int) ≤ 111) (htt : TTok s.ps) :
     let o := qBody c L child alpha beta ply s
-    TTok o.2.ps ∧ (o.2.aborted = false → InR o.1) := by
+    TTok o.2.ps ∧ (o.2.aborted = false → RelP ply o.1) := by
   simp only [qBody]
   split
   · next v hcut =>
     refine ⟨htt, fun _ => ?_⟩
     split at hcut
-    · next e he => exact ttCut_inR (sl.tt_probe _ _ _ _ htt he) hcut
+    · next e he => exact ttCut_relP (sl.tt_probe _ _ _ _ htt hp0 (by omega) he) hcut
     · cases hcut
   · split
-    · exact ⟨htt, fun _ => inR_mate hp0 (by omega)⟩
+    · exact ⟨htt, fun _ => relP_mate hp0 (by omega)⟩
     · split
-      · exact ⟨htt, fun _ => inR_zero⟩
+      · exact ⟨htt, fun _ => relP_zero ply⟩
       · have hse := inR_eval c s.board
+        have hsp := relP_eval c s.board ply
         split
-        · exact ⟨htt, fun _ => hse⟩
+        · exact ⟨htt, fun _ => hsp⟩
         · obtain ⟨hw1, hw2, hw3, hw4⟩ := hw
-          have hq0 : QInv { alpha := max alpha (evaluate c s.board), maxim := evaluate c s.board } :=
-            ⟨le_max_of hw1, max_le_of hw2 hse.2, hse⟩
+          have hq0 : QInv ply { alpha := max alpha (evaluate c s.board), maxim := evaluate c s.board } :=
+            ⟨le_max_of hw1, max_le_of hw2 hse.2, hsp⟩
           have h := qLoop_range c L hl sl child hc hr beta (evaluate c s.board) hw3 hw4 ply hp0
             (c.qMoves s.ps s.board s.hstack)
             { alpha := max alpha (evaluate c s.board), maxim := evaluate c s.board } s.pushFrame hg hfl
             (fun mw hmw => ⟨hl.q_mem s.ps s.board s.hstack mw.1 mw.2 hg hmw,
               sl.q_measure s.ps s.board s.hstack mw.1 mw.2 hg hmw⟩) hpl htt hq0
+          have hfs := (qLoop_spec c L hl child hc beta (evaluate c s.board) ply (c.qMoves s.ps s.board s.hstack)
+            { alpha := max alpha (evaluate c s.board), maxim := evaluate c s.board } s.pushFrame hg ⟨sl.tt_ok _ htt, hfl⟩
+            (fun mw hmw => hl.q_mem s.ps s.board s.hstack mw.1 mw.2 hg hmw)).1.board
           simp only at h
           generalize qLoop c L child beta (evaluate c s.board) ply (c.qMoves s.ps s.board s.hstack)
-            { alpha := max alpha (evaluate c s.board), maxim := evaluate c s.board } s.pushFrame = r at h ⊢
+            { alpha := max alpha (evaluate c s.board), maxim := evaluate c s.board } s.pushFrame = r at h hfs ⊢
           obtain ⟨htt', hret, hdone⟩ := h
           obtain ⟨fl, s'⟩ := r
           cases fl with
           | ret x => exact ⟨htt', fun hna => hret x rfl hna⟩
           | done l' =>
             have := hdone l' rfl
-            exact ⟨sl.tt_store _ _ _ _ _ _ _ htt' this.2.2, fun _ => this.2.2⟩
+            have hqs : Good s'.popFrame.board := by
+              have : s'.board = s.board := hfs
+              show Good s'.board
+              rw [this]; exact hg
+            exact ⟨sl.tt_store _ _ _ _ _ _ _ htt' hp0 (by omega) this.2.2
+              (hl.ok_store _ _ _ _ _ _ _ (sl.tt_ok _ htt') hqs (Or.inl rfl)), fun _ => this.2.2⟩
 
 theorem quiescence_range (c : Comp σ π) (L : Limits) {Good : Board → Prop} {TTok : σ → Prop} {μ : Board → Nat}
     (hl : Laws c Good) (sl : ScoreLaws c Good TTok μ) (fuel : Nat) :
@@ -173,7 +193,7 @@ theorem quiescence_range (c : Comp σ π) (L : Limits) {Good : Board → Prop} {
     split
     · next hab => exact ⟨by rw [hps]; exact htt, fun hna => by rw [← hat, hab] at hna; cases hna⟩
     · split
-      · exact ⟨by rw [hps]; exact htt, fun _ => inR_zero⟩
+      · exact ⟨by rw [hps]; exact htt, fun _ => relP_zero p⟩
       · next hnd =>
         exact qBody_range c L hl sl (quiescence c L fuel) (quiescence_spec c L hl fuel) ih a b hw p hp0 as.2
           (by rw [h12.board]; exact hg) (fifty_lt_of_not_draw hnd) (by rw [h12.board]; exact hpl) (by rw [hps]; exact htt)
